@@ -1,7 +1,7 @@
 """C17 — distinct resamplers can be used concurrently; results equal serial use; the process-wide FFT cache and coefficient
 tables are never read while being rebuilt nor initialised twice.
 
-  proof      lean/SoxrModel/Properties/C17.lean (23 theorems): counter-abstraction model of ONE FFT cache (fft4g_cache.h +
+  proof      lean/SoxrModel/Properties/C17.lean (26 theorems): counter-abstraction model of ONE FFT cache (fft4g_cache.h +
              ccrw2.h + the unguarded lazy initialiser, 55 program points, 65 transitions, five semaphores, readcount, writecount,
              FFT_LEN, built length) for ANY number of threads and EVERY interleaving: after initialisation writer/reader
              exclusion, no read during a rebuild, readers find the tables built, every rebuild is a strict growth (the
@@ -66,7 +66,7 @@ def round1(g, sets, quick):
     rng = g.ctx.rng
     for s in sets:
         nt = L.nthreads(L.JOBSETS[s][0])
-        for warm in (0, 1):
+        for warm in L.starts(s):
             for rs in (0, 1):
                 g.add(s, "base" if rs == 0 else "tail", tail="c", warm=warm, relswitch=rs)
                 g.add(s, "tail", tail="r", warm=warm, relswitch=rs)
@@ -86,7 +86,7 @@ def round2(g, sets, base, quick):
     for s in sets:
         nt = L.nthreads(L.JOBSETS[s][0])
         sw = ["n"] if nt == 2 else ["n", "m"]
-        for warm in (0, 1):
+        for warm in L.starts(s):
             nd = base.get((s, warm), 30)
             # bound 1: EVERY decision point of the base run, every other thread
             for i in range(nd + 2):
@@ -116,7 +116,7 @@ def round2(g, sets, base, quick):
                 g.add(s, "f9-park", sched="0" + "1" * k + "0", tail="r", warm=0)
         depth = (7 if nt == 2 else 4) if quick else (12 if nt == 2 else 7)
         digits = "012"[:nt]
-        for warm in (0, 1):
+        for warm in L.starts(s):
             for tail in ("c", "r"):
                 for v in range(nt ** depth):
                     pre, x = "", v
@@ -203,7 +203,7 @@ def run(ctx):
             ctx.hist("schedules_by_family", sp["family"])
             ctx.hist("schedules_by_jobset", sp["set"])
             ctx.hist("schedules_by_threads", L.nthreads(sp["jobs"]))
-            ctx.hist("schedules_by_start", "warm" if sp.get("warm") else "cold")
+            ctx.hist("schedules_by_start", {0: "cold", 1: "warm", 2: "double cache warm, float cache cold", 3: "float cache warm, double cache cold"}[sp.get("warm", 0)])
             ctx.hist("run_status", r["status"])
             ctx.hist("decision_points", min(200, 20 * (r["ndec"] // 20)))
             vio, known = L.classify(r)
@@ -224,7 +224,7 @@ def run(ctx):
                     stats["vr_raced"] += 1
             if raced:
                 stats["f9_runs"] += 1
-            elif sp.get("warm"):
+            elif sp.get("warm") == 1:
                 stats["warm"] += 1
             else:
                 stats["good_cold"] += 1
@@ -294,13 +294,14 @@ def run(ctx):
     # schedules on which the real code misbehaved or left the model: reported first, they carry the failing input
     seen = {}
     for k, t, r in vios:
-        key = (k, r["spec"]["set"], r["spec"].get("warm", 0))
+        # a structural fact (the same in every schedule) is reported once, the behaviour it leads to per job set and start
+        key = (k, "(every job set)", -1) if k.startswith("LOCK-") else (k, r["spec"]["set"], r["spec"].get("warm", 0))
         seen.setdefault(key, []).append((t, r))
     ctx.cov["violating_runs"] = len(set(r["spec"]["id"] for _, _, r in vios))
-    order = sorted(seen, key=lambda k: (k[0] == "REJECT", k))        # real-code monitor hits first: they carry the failing behaviour
+    order = sorted(seen, key=lambda k: (k[0] == "REJECT", not k[0].startswith("LOCK-"), not k[0].startswith("REINIT"), k))        # real-code monitor hits first: they carry the failing behaviour
     for key in order[:10]:
         t, r = sorted(seen[key], key=lambda x: (len(x[1]["decisions"]), x[1]["spec"]["id"]))[0]
-        ctx.violation("%s in %d schedule(s) of job set %s (%s start): %s" % (key[0], len(seen[key]), key[1], "warm" if key[2] else "cold", t),
+        ctx.violation("%s in %d schedule(s) of job set %s (%s start): %s" % (key[0], len(seen[key]), key[1], {0: "cold", 1: "warm", 2: "double-cache-warm", 3: "float-cache-warm", -1: "any"}[key[2]], t),
                       {"line": replay_line(r), "line_as_generated": L.spec_line(r["spec"]), "kind": key[0], "detail": t,
                        "monitors": [(e, k2, x) for e, k2, x in r["viol"]][:12], "status": r["status"], "wrong": r["wrong"],
                        "model": (r["model"] or {}).get("raw") or (r["model"] or {}).get("why"),
